@@ -37,7 +37,8 @@ EvCall == Is("call")
           /\ IF pc = "closed" THEN ClosedCall /\ E.res = "err"
              ELSE /\ UNCHANGED vars /\ pc = "idle" /\ calls # <<>>
                   /\ LET c == calls[Len(calls)] IN
-                     /\ (E.res = "ok") = (c.res = "ok")
+                     \* a call issued with an expired deadline may be cut off (CANCELLED) where the model - which has no deadlines - answers it
+                     /\ LET cutOff == "zero" \in DOMAIN E /\ E.zero /\ E.res = "err" /\ E.code = 1 IN (E.res = "ok" \/ cutOff) = (c.res = "ok")
                      /\ E.consumed = c.consumed /\ E.killed_before = c.killedBefore
 Skip == Is(E.e) /\ E.e \in {"srv_req", "summary", "end"} /\ UNCHANGED vars
 TNext == Reset \/ EvKill \/ EvIssue \/ EvConnector \/ HErrReady \/ HIdleMake \/ HConnOk \/ HConnFail \/ HConnected \/ HCall \/ EvConnect \/ EvCall \/ Skip
